@@ -272,6 +272,41 @@ pub fn sites(tier: Tier) -> Vec<Site> {
                 acc.nontrivial();
             }));
     }
+    // an allowed-mods list that names an id more than once (LFS does not, a peer may): every sequence of 1..=4 ids over
+    // {two mod ids, the bytes of XFG} - the list decodes to the distinct ids named, and what follows the frame is left alone
+    {
+        let ids: [u32; 3] = [0x00db_f12e, 0x0007_409a, u32::from_le_bytes(*b"XFG\0")];
+        let n = (3u64 + 9 + 27 + 81) * 2;
+        s.push(Site::new("mal-with-repeats", n,
+            "IS_MAL frames listing every sequence of 1..=4 ids over {two mod ids, the four bytes XFG NUL} x mode, a TINY behind the frame: the decoded list holds exactly the distinct ids named, as mods, and the TINY is still there",
+            move |i, acc| {
+                use insim::net::{Codec, Mode};
+                acc.eval();
+                let compressed = i % 2 == 0;
+                let j = i / 2;
+                let (l, mut q) = if j < 3 { (1, j) } else if j < 12 { (2, j - 3) } else if j < 39 { (3, j - 12) } else { (4, j - 39) };
+                let mut list = vec![];
+                for _ in 0..l { list.push(ids[(q % 3) as usize]); q /= 3; }
+                let total = 8 + 4 * list.len();
+                let mut f = vec![if compressed { (total / 4) as u8 } else { total as u8 }, 65, 0, list.len() as u8, 0, 0, 0, 0];
+                for id in &list { f.extend_from_slice(&id.to_le_bytes()); }
+                let sentinel: Vec<u8> = if compressed { vec![1, 3, 2, 3] } else { vec![4, 3, 2, 3] };
+                f.extend_from_slice(&sentinel);
+                let replay = json!({"site": "mal-with-repeats", "index": i, "ids": list.iter().map(|x| format!("{x:#010x}")).collect::<Vec<_>>()});
+                let mut b = bytes::BytesMut::from(&f[..]);
+                let mut distinct: Vec<u32> = vec![];
+                for id in &list { if !distinct.contains(id) { distinct.push(*id); } }
+                match guard(|| Codec::new(if compressed { Mode::Compressed } else { Mode::Uncompressed }).decode(&mut b)) {
+                    Ok(Ok(Some(insim::Packet::Mal(m)))) => {
+                        let got: Vec<String> = m.iter().map(|v| format!("{v:?}")).collect();
+                        let want: Vec<String> = distinct.iter().map(|id| format!("{:?}", Vehicle::Mod(*id))).collect();
+                        if got == want && b[..] == sentinel[..] { acc.class("mal-with-repeats-decodes-to-the-ids-named"); acc.nontrivial(); }
+                        else { acc.violate(i, "C13|mal|list-with-repeats".into(), format!("MAL naming {:?} decodes to {got:?} leaving {} where the ids named are {want:?} and a TINY follows", replay["ids"], crate::report::hex(&b)), replay); }
+                    },
+                    other => acc.violate(i, "C13|mal|list-with-repeats".into(), format!("MAL naming {:?}: {}", replay["ids"], format!("{other:?}").chars().take(120).collect::<String>()), replay),
+                }
+            }));
+    }
     // what an identifier decodes to is a matter of its four bytes, not of what the application did with such a value before:
     // every corpus value put into an allowed-mods list as a mod (insert, remove, clear), then its bytes decoded
     {
@@ -296,6 +331,13 @@ pub fn sites(tier: Tier) -> Vec<Site> {
                     acc.violate(i, "C13|decode-depends-on-earlier-mutator-calls".into(), format!("{} decodes to {got:?} after a MAL had held it as a mod id; before: {}", crate::report::hex(&v.to_le_bytes()), alone[k]), json!({"site": "decode-after-mutators", "index": i}));
                 } else { acc.class("decode-independent-of-mutators"); acc.nontrivial(); }
             }));
+    }
+    // ... nor over longer histories: every sequence of up to 6 decodes (+ write-back) over five identifiers, on a fresh thread
+    {
+        let corpus: Vec<(String, [u8; 4])> = vec![("XFG".into(), *b"XFG\0"), ("FBM".into(), *b"FBM\0"), ("mod DBF12E".into(), [0x2e, 0xf1, 0xdb, 0]), ("mod spelling XRT".into(), *b"XRT\x01"), ("ABC (no car)".into(), *b"ABC\0")];
+        s.push(crate::crossthread::history_site("C13", "decode-histories", "vehicle decode + write-back", corpus, |b: &[u8; 4]| {
+            Vehicle::read_le(&mut Cursor::new(&b[..])).map(|v| { let mut c = Cursor::new(Vec::new()); let w = v.write_le(&mut c).map(|_| c.into_inner()).map_err(|_| ()); (format!("{v:?} {v}"), w) }).map_err(|_| ())
+        }));
     }
     // no memory between threads either: histories of 2 and 3 decodes / encodes spread over two threads
     {
